@@ -31,7 +31,7 @@ theorem negamax_bounds {g : Game P M} (hb : EvalBounded g) :
         omega
 
 /-- the root call of one deepening iteration returns the exact value and a PV whose head attains it -/
-theorem root_exact [DecidableEq M] {g : Game P M} (hg : GameOK g) (hb : EvalBounded g) {cfg : Cfg} (hpr : Precise cfg)
+theorem root_exact [DecidableEq M] {g : Game P M} (hg : GameOK g) (hb : EvalBounded g) {cfg : SOpts} (hpr : Precise cfg)
     {o : Oracle M} (hnc : NoCancel o) (hord : OrderOK o)
     (p : P) (depth : Int) (hd : 1 ≤ depth) (hov : g.over p = false) (hl : Live g depth.toNat p)
     (pv : List M) (D : Int × Bool) (s : Eng M) (hs : NT D s) :
@@ -58,13 +58,14 @@ def LoopInv (g : Game P M) (cfg : Cfg) (p : P) (i : Int) (a : ALoop M) (s : Eng 
   (2 ≤ i → i - 1 ≤ cfg.depth ∧ Good g p a)
 
 theorem analyzeStep_spec [DecidableEq M] {g : Game P M} (hg : GameOK g) (hb : EvalBounded g) {cfg : Cfg}
-    (hpr : Precise cfg) {o : Oracle M} (hnc : NoCancel o) (hord : OrderOK o)
+    (hpr : Precise cfg.opts) {o : Oracle M} (hnc : NoCancel o) (hord : OrderOK o)
     (p : P) (hov : g.over p = false) (hlive : ∀ d : Nat, 1 ≤ d → (d : Int) ≤ cfg.depth → Live g d p)
     (i : Int) (hi : 1 ≤ i) (hic : i + 0 ≤ cfg.depth) (a : ALoop M) (s : Eng M) (hs : s.hasTable = false) :
     Sat (analyzeStep g cfg o p 0 i a s) (fun x =>
       match x with
-      | .inl (a', s') => LoopInv g cfg p (i + 1) a' s'
-      | .inr (a', s') => s'.hasTable = false ∧ a'.st.canceled = false ∧ a'.st.depth = i ∧ Good g p a') := by
+      | .go a' s' => LoopInv g cfg p (i + 1) a' s'
+      | .done a' s' => s'.hasTable = false ∧ a'.st.canceled = false ∧ a'.st.depth = i ∧ Good g p a'
+      | .cancelled _ => False) := by
   unfold analyzeStep
   apply Sat.bind
   have hd : (i + 0).toNat = i.toNat := by simp
@@ -79,7 +80,6 @@ theorem analyzeStep_spec [DecidableEq M] {g : Game P M} (hg : GameOK g) (hb : Ev
   subst hnext
   dsimp only
   rw [load_nc hnc]
-  dsimp only
   simp only [Bool.false_eq_true, if_false]
   have hdep : s1.st.depth = i := by have := congrArg Prod.fst hnt.2; dsimp only at this; omega
   have hgood : ∀ (ps bs : Nat), Good g p
@@ -101,7 +101,7 @@ theorem analyzeStep_spec [DecidableEq M] {g : Game P M} (hg : GameOK g) (hb : Ev
         ⟨hnt.1, by rw [hdm]; omega, hcan, fun _ => ⟨by omega, hgood _ _⟩⟩)
 
 theorem analyzeLoop_spec [DecidableEq M] {g : Game P M} (hg : GameOK g) (hb : EvalBounded g) {cfg : Cfg}
-    (hpr : Precise cfg) {o : Oracle M} (hnc : NoCancel o) (hord : OrderOK o)
+    (hpr : Precise cfg.opts) {o : Oracle M} (hnc : NoCancel o) (hord : OrderOK o)
     (p : P) (hov : g.over p = false) (hlive : ∀ d : Nat, 1 ≤ d → (d : Int) ≤ cfg.depth → Live g d p) :
     ∀ (n : Nat) (i : Int) (a : ALoop M) (s : Eng M), 1 ≤ i → cfg.depth + 1 ≤ i + n → LoopInv g cfg p i a s →
       Sat (analyzeLoop g cfg o p 0 n i a s) (fun x =>
@@ -136,13 +136,12 @@ theorem analyzeLoop_spec [DecidableEq M] {g : Game P M} (hg : GameOK g) (hb : Ev
       | ok x =>
         have hx := hstep x hr
         cases x with
-        | inr r =>
-          obtain ⟨a', s'⟩ := r
+        | cancelled s' => exact absurd hx id
+        | done a' s' =>
           dsimp only at hx ⊢
           obtain ⟨h1, h2, h3, h4⟩ := hx
           refine Sat.ok ⟨h1, h2, fun _ => ⟨?_, ?_, h4⟩⟩ <;> dsimp only <;> omega
-        | inl r =>
-          obtain ⟨a', s'⟩ := r
+        | go a' s' =>
           dsimp only at hx ⊢
           exact ih (i + 1) a' s' (by omega) (by omega) hx
 
@@ -150,7 +149,7 @@ theorem analyzeLoop_spec [DecidableEq M] {g : Game P M} (hg : GameOK g) (hb : Ev
 is the exhaustive negamax value of the position at the reported depth, the reported depth lies in
 `1..Cfg.Depth`, the search is not marked cancelled, and the first move of the PV is legal and attains the value. -/
 theorem analyze_exact_nt [DecidableEq M] {g : Game P M} (hg : GameOK g) (hb : EvalBounded g) {cfg : Cfg}
-    (hpr : Precise cfg) {o : Oracle M} (hnc : NoCancel o) (hord : OrderOK o)
+    (hpr : Precise cfg.opts) {o : Oracle M} (hnc : NoCancel o) (hord : OrderOK o)
     (p : P) (hov : g.over p = false) (hdepth : 1 ≤ cfg.depth)
     (hlive : ∀ d : Nat, 1 ≤ d → (d : Int) ≤ cfg.depth → Live g d p)
     (s : Eng M) (hs : s.hasTable = false) :
